@@ -126,7 +126,8 @@ pub fn split_into_deflate_streams(
             }
 
             Signature::IDAT => {
-                if index >= 4 {
+                // (the 4 bytes must not belong to a stream that was already emitted)
+                if index >= prev_index + 4 {
                     // idat has the length first, then the "IDAT", so we need to look back 4 bytes
                     // if we find and IDAT
                     let real_start = index - 4;
